@@ -506,3 +506,40 @@ class _XkeyRoundTrip:
 for _name, _kw in (("XkeyRoundTripPrv", dict(private=True, public_form=False)), ("XkeyRoundTripPub", dict(private=False, public_form=False)),
                    ("XkeyRoundTripPrvAsPub", dict(private=True, public_form=True))):
     CONTRACTS.append(type(_name, (_XkeyRoundTrip,), _kw)())
+
+
+# ======================================================================================= canaries (must be REFUTED)
+CANARIES = []
+
+
+class CanaryCkdHalvesSwapped(PrvCkd):
+    """must FAIL: spec with IL / IR swapped"""
+    props = ("C01", "C18", "C13")
+
+    def post(self, c, I, out):
+        if out.returned:
+            IL, IR, ki = spec_prv_ckd_terms(I.n.k, I.n.cc, I.index)
+            o = c.deref(out.value)
+            yield "canary.chain_code_is_IL", eq(o.fields.get("chain_code"), seg(IL, 32))
+
+
+class CanaryCkdFrameEmpty(PrvCkd):
+    """must FAIL: a contract that allows no heap write (ckd appends to self.children)"""
+    props = ("C13",)
+
+    def modifies(self, c, I):
+        return set()
+
+    def post(self, c, I, out):
+        return ()
+
+
+class CanaryPubCkdGuardOffByOne(PubCkd):
+    """must FAIL: spec refusing only indexes above 2^31"""
+    props = ("C02", "C14")
+
+    def post(self, c, I, out):
+        yield "canary.refused_only_above_2_31", implies(out.raised, lor(I.index > HARD, I.index < 0, *[False]))
+
+
+CANARIES += [CanaryCkdHalvesSwapped(), CanaryCkdFrameEmpty(), CanaryPubCkdGuardOffByOne()]
